@@ -30,8 +30,10 @@ if mods:
     ck.require_theorems([
         'LbzVerif.Props.C09.emit_split',
         'LbzVerif.Props.C09.Sched.output_eq',
+        'LbzVerif.Props.C09.Retrieve.retrieve_split',
+        'LbzVerif.Props.C09.Retrieve.fast_eq_slow',
     ])
-inproc.run_libs(ck, ['w12_emit'])
+inproc.run_libs(ck, ['w12_emit', 'w15_retrieve'])
 exe = ck.build_lbzip2(asan=False)
 rng = ck.rng
 evals = nontriv = 0
